@@ -150,6 +150,24 @@ PROPS = {
         'trusted': ["H-CLOCK; time shifting = moving stored timestamps back and fast-forwarding the store (observationally a clock advance)"],
         'assumptions': ["H-CLOCK", "H-AEAD"],
     },
+    'C11': {
+        'proofs': ['Ww.Proofs.C11'],
+        'gen_sections': ['Meta'],
+        'drivers': [{'name': 'fault', 'timeout': 1500}, {'name': 'hist'}],
+        'reasons': ['C11.'],
+        'class_fields': _merge(HIST_CLASS, {'fault': ['handler', 'prestate', 'fpos', 'fkind', 'fcount', 'status', 'upauth'], 'faultdry': ['handler', 'prestate']}),
+        'nontrivial': _merge(HIST_NT, {'faultdry': lambda f: False}),
+        'rule': "fault driver: for 7 handlers x pre-states {fresh, refresh due, expired} the fault-free sequence of store commands / lock scripts / provider calls is recorded, then at EVERY position a fault is injected: "
+                "1 failure, 2 failures, a fault outlasting the 5 s retry budget; for the provider 5xx (1, 2, persistent), 4xx and a non-JSON 200 (quick drops the double failures except at the lookup; 24 cases in parallel). "
+                "hist driver: provider answers ok/4xx/5xx/garbage along random histories. distinct = (handler, pre-state, position, fault kind, count, outcome).",
+        'level_text': "Proof: with an adversarial fault oracle over lookup, lock, re-read, provider answer, write-back and delete, a token is forwarded only if the session was read (or just granted and stored) and validated in this request and is unexpired; "
+                      "an expired token is never forwarded whichever fault prevents the refresh; a 4xx from the provider makes proxied requests go on without token and forward-auth / manual refresh answer 401; a logout whose lookup or delete failed "
+                      "never answers success; without faults the faulty handlers equal the ordinary ones. Retries are modelled as 'fails only if the fault outlasts the budget'; real back-off timing is measured, not modelled.",
+        'level_note': "Trusted: Lean kernel; go-retry (Fibonacci 50 ms, 5 s budget) as 'finitely many attempts, success iff one succeeds'; an error from the lock script is not retried (observed, noted in DESIGN); fault = error reply on the replica's connection at a command boundary.",
+        'technique': 'Lean 4 proof over the handler model with a fault oracle + fault injection at every store/provider position on real replicas',
+        'trusted': ["go-retry contract (Appendix C)", "H-CLOCK"],
+        'assumptions': ["faults occur at store-command / provider-call boundaries"],
+    },
     'C12': {
         'proofs': ['Ww.Proofs.C12'],
         'gen_sections': [],
